@@ -144,6 +144,8 @@ def _assign_case(seed):
         kind = "alt_terminal_exon"
     rng4 = random.Random(seed * 15485863 + 11)
     early_polya = rng4.random() < .06
+    rng5 = random.Random(seed * 32452843 + 3)
+    utr_variant = not early_polya and rng5.random() < .05
     if early_polya:
         # the only isoform has two further exons behind the read's polyA tail, the last of them short (8-40 bp): a transcript end two exons
         # and hundreds of bases before the annotated one is an alternative polyA site, however short the last annotated exon is (own
@@ -168,6 +170,29 @@ def _assign_case(seed):
         isoforms, single, near = [("T1", strand, ex)], True, False
         gi = H.gene_info_of(isoforms, params.delta)
         tid, exons, kind = "T1", ex, "early_polya_two_exons_missing"
+    elif utr_variant:
+        # two isoforms with one intron chain (3' UTR variants, ends 150-400 bp apart); the read is a copy of the shorter one and carries the
+        # tail at its 3' end: it follows that isoform exactly (own generator and own gene)
+        k = rng5.randint(3, 5)
+        q, ex = 1000, []
+        for _ in range(k):
+            a = q + rng5.randint(300, 900)
+            b = a + rng5.randint(100, 260)
+            ex.append((a, b))
+            q = b
+        strand = rng5.choice("+-")
+        ext = rng5.randint(150, 400)
+        longer = list(ex)
+        if strand == "+":
+            longer[-1] = (ex[-1][0], ex[-1][1] + ext)
+        else:
+            longer[0] = (ex[0][0] - ext, ex[0][1])
+        isoforms, single, near = [("Tshort", strand, list(ex)), ("Tlong", strand, longer)], False, False
+        if rng5.random() < .5:
+            isoforms.reverse()
+        gi = H.gene_info_of(isoforms, params.delta)
+        tid, exons, kind = "Tshort", ex, "exact"
+        read = list(ex)
     elif kind == "alt_terminal_exon":
         # all inner exons of T, but the first (or last) exon lies 800-3000 bp further out, not overlapping T's terminal exon: an alternative
         # first / last exon, a structural difference far beyond every tolerance whatever its length
@@ -230,7 +255,9 @@ def _assign_case(seed):
     polya = (-1, -1, -1, -1)
     if early_polya:
         polya = (read[-1][1] - rng4.randint(0, 3), -1, -1, -1) if strand == "+" else (-1, read[0][0] + rng4.randint(0, 3), -1, -1)
-    tail = not early_polya and rng.random() < .5 and read is not None and kind in ("exact", "jitter", "distant_5p_end", "intron_retention", "skipped_exon", "novel_exon", "novel_intron_in_exon")
+    if utr_variant:
+        polya = (read[-1][1], -1, -1, -1) if strand == "+" else (-1, read[0][0], -1, -1)
+    tail = not early_polya and not utr_variant and rng.random() < .5 and read is not None and kind in ("exact", "jitter", "distant_5p_end", "intron_retention", "skipped_exon", "novel_exon", "novel_intron_in_exon")
     if tail:
         if strand == "+":
             polya = (read[-1][1] - rng.randint(0, 3), -1, -1, -1)
